@@ -273,11 +273,11 @@ def run_config(chk, config):
                 evs = b.events()[H.ntrace:]
                 reads = [e for e in evs if e[0] == "read" and e[1] == "reader.*"]
                 pushes = [e for e in evs if e[0] == "push"]
-                if len(reads) < 4:
+                hv = AvpHeaderView(eg, b, reads)
+                if not hv.ok:
                     continue
-                o1, vendor, atv = reads[0][3], reads[2][3], reads[3][3]
-                o1n = next(iter(o1.lin.t))
-                if b.bitfacts.get((o1n, 1)) is True or not eg.ent(b, c_eq(vendor.lin, Lin.const(0))):
+                atv = VInt(None, hv.attr)
+                if hv.bit(b, 1) is True or not eg.ent(b, c_eq(hv.vendor, Lin.const(0))):
                     continue
                 if all(eg.ent(b, (atv.lin - c, "ne")) for c in sp["attribute_type"].values()):
                     ginfo["unassigned_paths"] += 1
@@ -286,7 +286,7 @@ def run_config(chk, config):
                         vi, p = result_parts(pushes[0][2])
                         if vi == 1 and tables.variant_name(eg, p) == "UnknownAvp":
                             x = p.variants[p.vidx.c][0]
-                            okp = isinstance(x, VInt) and x.lin == atv.lin
+                            okp = isinstance(x, VInt) and eg.ent(b, c_eq(x.lin, atv.lin))
                     if not okp:
                         ginfo["bad"].append("a record with an unassigned attribute type is not reported as UnknownAvp(type) (pushes: %d)" % len(pushes))
         eg.hooks["loop"] = on_loop
@@ -315,6 +315,15 @@ def run_config(chk, config):
 
 def run(chk):
     run_config(chk, "default")
+    # "each of the remaining values is rejected": the field is consulted whenever it is present (C05 layouts of the
+    # enumerated kinds) and a rejected AVP rejects the message (C15)
+    from framework import Sub
+    import rules.c05 as c05
+    import rules.c15 as c15
+    kinds = ("MessageType::", "ResultCode::", "ProxyAuthenType::")
+    Sub(chk, "via C05 | ", lambda k: k.startswith(("layout", "by-length", "min-length")) and any(x in k for x in kinds)
+        ).borrow(c05, "default", 6, "enumerated kinds' decoder layouts")
+    Sub(chk, "via C15 | ", lambda k: True).borrow(c15, "default", 6, "error propagation to the message level")
     if chk.tier == "thorough":
         for cfg in ("debug", "release"):
             run_config(chk, cfg)
